@@ -22,15 +22,24 @@ func NewByteStream(b []byte) *ByteStream {
 }
 
 func (b *ByteStream) ReadAll() ([]rune, error) {
-	data, _, err := readRune(b.reader, b.encBuffer, b.length)
-	if err != nil {
-		return []rune{}, err
+	result := []rune{}
+	for {
+		data, remains, eof, err := readRune(b.reader, b.encBuffer, b.length)
+		if err != nil {
+			return []rune{}, err
+		}
+		b.encBuffer = remains
+		result = append(result, data...)
+
+		if eof {
+			break
+		}
 	}
-	return data, nil
+	return result, nil
 }
 
 func (b *ByteStream) Read(n int) ([]rune, error) {
-	data, remains, err := readRune(b.reader, b.encBuffer, n)
+	data, remains, _, err := readRune(b.reader, b.encBuffer, n)
 	if err != nil {
 		return []rune{}, err
 	}
